@@ -170,6 +170,9 @@ def _work(ctx, rep):
     rng.shuffle(core)
     cases += core[: (2500 if ctx.tier == 'quick' else 7290)][ctx.part::ctx.parts]
     cases += [random_case(rng) for _ in range((2500 if ctx.tier == 'quick' else 400000) * ctx.scale // ctx.parts)]
+    from props.c02 import dtype_case, scale_case
+    cases += [dtype_case(rng) for _ in range((600 if ctx.tier == 'quick' else 60000) * ctx.scale // ctx.parts)]
+    cases += [scale_case(rng, False) for _ in range((4 if ctx.tier == 'quick' else 60) * ctx.scale // ctx.parts)]
     lines, expect = [], []
     for case in cases:
         if case['opts']['min_iter'] > case['opts']['max_iter'] and rng.random() < 0.8:
